@@ -41,7 +41,9 @@ def ft_sh_phase_screen(r0, N, delta, L0, l0, FFT=None, seed=None):
 
     D = N * delta
     # high-frequency screen from FFT method
-    phs_hi = ft_phase_screen(r0, N, delta, L0, l0, FFT, seed=seed)
+    # same generator for both parts: with seed=seed an integer seed would restart the stream, and the
+    # sub-harmonic coefficients below would repeat the first high-frequency draws
+    phs_hi = ft_phase_screen(r0, N, delta, L0, l0, FFT, seed=R)
 
     # spatial grid [m]
     coords = numpy.arange(-N/2,N/2)*delta
